@@ -181,8 +181,36 @@ theorem WalletFile.decode_ne_panic_fixed (fl : CodecFlags) (hf : fl.walletTotal 
   simp only [hf, ↓reduceIte]
   split <;> simp
 
-/-- every tag of `Message::deserialize` is total once the transaction and chain-sync decoders check bounds -/
-theorem Msg.decode_ne_panic_fixed (fl : CodecFlags) (h1 : fl.txBounds = true) (h2 : fl.ghostBounds = true)
+/-- the chain-sync decoder cannot panic on a buffer that holds everything its count field announces -/
+theorem Ghost.decode_ne_panic_of_not_short (fl : CodecFlags) (bs : Bytes) (h : Ghost.short bs = false) :
+    Ghost.decode fl bs ≠ .panic := by
+  unfold Ghost.short at h
+  simp only [Bool.or_eq_false_iff, decide_eq_false_iff_not] at h
+  unfold Ghost.decode
+  simp only
+  rw [if_neg h.1, if_neg h.2]
+  simp
+
+/-- an honest chain-sync encoding always holds what its count field announces -/
+theorem Ghost.short_encode (g : Ghost) (h : g.wf) : Ghost.short g.encode = false := by
+  have hd := Ghost.decode_encode { ghostBounds := true } g h
+  cases hs : Ghost.short g.encode with
+  | false => rfl
+  | true =>
+    unfold Ghost.short at hs
+    simp only [Bool.or_eq_true, decide_eq_true_eq] at hs
+    unfold Ghost.decode at hd
+    simp only at hd
+    rcases hs with hs | hs
+    · rw [if_pos hs] at hd; simp at hd
+    · by_cases h36 : g.encode.length < 36
+      · rw [if_pos h36] at hd; simp at hd
+      · rw [if_neg h36, if_pos hs] at hd; simp at hd
+
+/-- every tag of `Message::deserialize` is total once the transaction decoder checks bounds and the chain-sync
+    payload is checked either by its decoder or by `Message::deserialize` before the decoder is called -/
+theorem Msg.decode_ne_panic_fixed (fl : CodecFlags) (h1 : fl.txBounds = true)
+    (h2 : fl.ghostBounds = true ∨ fl.msgGhostChecked = true)
     (bs : Bytes) : Msg.decode fl bs ≠ .panic := by
   unfold Msg.decode
   split
@@ -197,7 +225,13 @@ theorem Msg.decode_ne_panic_fixed (fl : CodecFlags) (h1 : fl.txBounds = true) (h
     · simp
     · simp
     · exact map_ne_panic _ _ (decServices_ne_panic _)
-    · exact map_ne_panic _ _ (Ghost.decode_ne_panic_fixed fl h2 _)
+    · split
+      · simp
+      · rename_i hs
+        rcases h2 with h2 | h2
+        · exact map_ne_panic _ _ (Ghost.decode_ne_panic_fixed fl h2 _)
+        · simp only [h2, Bool.true_and, Bool.not_eq_true] at hs
+          exact map_ne_panic _ _ (Ghost.decode_ne_panic_of_not_short fl _ hs)
     · split <;> simp
     · split <;> simp
     · split <;> simp
@@ -232,7 +266,9 @@ theorem Msg.decode_panic_only_tags (fl : CodecFlags) (bs : Bytes) (h : Msg.decod
       · have : tag = 10 := by
           apply UInt8.toNat_inj.1; simpa using ht
         rw [this]
-      · cases hd : Ghost.decode fl b <;> simp_all [Res.map, Res.bind]
+      · split at h
+        · simp at h
+        · cases hd : Ghost.decode fl b <;> simp_all [Res.map, Res.bind]
     · split at h <;> simp at h
     · split at h <;> simp at h
     · split at h <;> simp at h
